@@ -210,7 +210,7 @@ Print Assumptions parse_ok_history_never_unknown_passage.
 (* `-> @join` as a jump is a compile-time diagnostic; what the engine would do with such a story if it were
    accepted is the ValueError of join_jump_unknown (the defect F12a, fixed) *)
 Theorem jump_to_join_rejected :
-  parse (mkPyparse (fun _ => true) (fun _ => Some (0, []))) (fun _ => true) no_extractors
+  parse (mkPyparse (fun _ => true) (fun _ => Some (0, [])) (fun _ => 0)) (fun _ => true) no_extractors
         [":: Start"; "hi<>"; "-> @join"] = PDiag (DSyntax "call:jump-to-join" 0) /\
   snd (goto null_orc [] join_jump_story (initial join_jump_story) (mkNS (empty_core []) [] [])) = Exc ValueError.
 Proof. split; [exact join_jump_rejected|exact join_jump_unknown]. Qed.
@@ -229,7 +229,7 @@ Print Assumptions parse_ok_initial_startable.
 (* a compiled story with a jump chain Start -> Hall -> End satisfies the hypotheses, and the goto
    runs through all three passages *)
 Example chain_sample :
-  match parse_real (mkPyparse (fun _ => true) (fun _ => Some (0, []))) (fun _ => true)
+  match parse_real (mkPyparse (fun _ => true) (fun _ => Some (0, [])) (fun _ => 0)) (fun _ => true)
                    [":: Start"; "a<>"; "@if x:"; "  -> Hall"; "@endif"; "-> Hall"; ":: Hall"; "b<>"; "-> End"; ":: End"; "c<>"] with
   | POk st =>
       match goto null_orc [] st "Start" (mkNS (empty_core []) [] []) with
@@ -264,7 +264,7 @@ Definition brief (r : list (obs * view)) : list (obs * string * list string) :=
   map (fun ov => (fst ov, v_pid (snd ov), map (fun c => snd (fst c)) (v_choices (snd ov)))) r.
 
 Example play_sample :
-  match parse_real (mkPyparse (fun _ => true) (fun _ => Some (0, []))) (fun _ => true) play_lines with
+  match parse_real (mkPyparse (fun _ => true) (fun _ => Some (0, [])) (fun _ => 0)) (fun _ => true) play_lines with
   | POk st =>
       brief (run_all play_orc [] st [] play_ops) =
       [(ObsOk, "Start", ["@join"; "Cellar"; "Hall"]);
